@@ -355,8 +355,9 @@ func GraphEdit(r *lib.Rand, doc map[string]any) string {
 		defs = map[string]any{}
 		doc["definitions"] = defs
 	}
-	switch r.Intn(5) {
+	switch r.Intn(13) / 3 {
 	case 4:
+		// (one graph edit in thirteen: each of these documents costs a process)
 		// a cycle of definitions through composition keywords (A allOf [B], B allOf [A]: circular ancestry; or through
 		// anyOf / oneOf / not) and a schema with a default / example whose value reaches into the cycle
 		n := r.Range(1, 3)
